@@ -99,7 +99,7 @@ func (m *StringifiedMessage) encode(d *Decoder, sb *strings.Builder, tagType byt
 	case TagFloat:
 		i, err := d.readInt32()
 		f := float64(math.Float32frombits(uint32(i)))
-		sb.WriteString(strconv.FormatFloat(f, 'f', 10, 32) + "F")
+		sb.WriteString(strconv.FormatFloat(f, 'f', -1, 32) + "F")
 		return err
 	case TagLong:
 		i, err := d.readInt64()
@@ -108,7 +108,7 @@ func (m *StringifiedMessage) encode(d *Decoder, sb *strings.Builder, tagType byt
 	case TagDouble:
 		i, err := d.readInt64()
 		f := math.Float64frombits(uint64(i))
-		sb.WriteString(strconv.FormatFloat(f, 'f', 10, 64) + "D")
+		sb.WriteString(strconv.FormatFloat(f, 'f', -1, 64) + "D")
 		return err
 	case TagByteArray:
 		aryLen, err := d.readInt32()
